@@ -59,8 +59,8 @@ def rule_threshold(ctx):
     if len(aux) != 1:
         raise Unrecognised('threshold', 'AuxPoW reader call not found')
     g = aux[0][6]
-    exp = ['(a3.aux_pow_activation_version as Some).0 <= read_block_header#0(self)?.version', 'a3.aux_pow_activation_version is Some']
-    ctx.check('threshold', 'section-iff-version>=activation', g == exp, aux[0] and items[1][7], 'AuxPoW section read under %s' % g,
+    exp = ['a3.aux_pow_activation_version? <= read_block_header#0(self)?.version', 'a3.aux_pow_activation_version is Some']
+    ctx.check('threshold', 'section-iff-version>=activation', sorted(g) == sorted(exp), aux[0] and items[1][7], 'AuxPoW section read under %s' % g,
               bad_detail='AuxPoW section read under %s; required exactly: activation is Some(v) and v <= header.version' % g)
     # nothing else conditional: the other reads are unguarded
     for i in sh:
